@@ -34,7 +34,9 @@ func orNone(s string) string {
 // C05Cells is the complete matrix of the property's quantifier.
 func C05Cells() []c05cell {
 	var out []c05cell
-	for _, carrier := range []string{"tcp+tls", "wss", "starttls-tcp", "starttls-ws", "starttls-udp", "starttls-dns"} {
+	// (starttls-udp-secret: the UDP carrier with an equal shared secret AND certificates - the secret encrypts
+	// the datagrams, the certificates are still what authenticates the peers)
+	for _, carrier := range []string{"tcp+tls", "wss", "starttls-tcp", "starttls-ws", "starttls-udp", "starttls-dns", "starttls-udp-secret"} {
 		for _, sc := range []string{"good", "wronghost", "untrusted", "expired", "expiring-soon", "not-yet-valid"} {
 			for _, k := range []bool{false, true} {
 				for _, cc := range []string{"", "good", "foreign", "impostor"} {
@@ -86,6 +88,8 @@ func scenarioC05(r *Run) {
 		cfg.Carrier = "udp"
 	case "starttls-dns":
 		cfg.Carrier = "dns+udp"
+	case "starttls-udp-secret":
+		cfg.Carrier = "udp+pass"
 	case "udp-secret":
 		cfg.Carrier = "udp+pass"
 		switch cell.Secret {
